@@ -202,9 +202,52 @@ def _cmp(nit, got, want, kind, tol, what, temp=False):
         raise Violation(f"standard_value_differs:{ENTRY[0]}", f"{what}: registry {float(got)!r}, CODATA {float(want)!r} (rel {float(rel_err(Fraction(got), want)):.3g} > {tol})")
 
 
+SI_SYMBOLS = {"second": "s", "meter": "m", "gram": "g", "ampere": "A", "kelvin": "K", "mole": "mol", "candela": "cd", "hertz": "Hz", "newton": "N", "pascal": "Pa", "joule": "J",
+              "watt": "W", "volt": "V", "ohm": "Ω", "farad": "F", "tesla": "T", "liter": "l", "byte": "B", "bit": "bit", "electron_volt": "eV", "becquerel": "Bq", "sievert": "Sv"}
+
+
+def case_prefixed_symbol(case):
+    """prefix symbol + unit symbol of a standard unit denotes prefix value x unit (judged by value and dimension: a few such spellings are
+    other defined units of the same size, e.g. fm = fermi), before and after other lookups"""
+    ureg = env.ureg("Fraction")
+    psym, pval, unit, usym = case["psym"], eval_value(case["pval"]), case["unit"], case["usym"]
+    text = psym + usym
+    s, q = attempt(lambda: ureg.Quantity(1, text).to(unit))
+    if s == "err":
+        raise Violation(f"standard_prefixed_symbol_unreadable:{text}", f"Q(1,{text!r}).to({unit!r}): {type(q).__name__}: {q}")
+    if isinstance(q.magnitude, float) or Fraction(q.magnitude) != pval:
+        raise Violation(f"standard_prefixed_symbol_wrong:{text}", f"1 {text} = {q.magnitude!r} {unit}, standard {pval}")
+
+
+def case_named_prefixed(case):
+    """a defined unit whose name also reads as prefix + unit (milliarcsecond, kilometer_per_second, dtex) is that prefix times that unit"""
+    R = env.R()
+    ureg = env.ureg("Fraction")
+    name, p, u = case["name"], case["prefix"], case["unit"]
+    want = Fraction(R.prefixes[p].value)
+    s, q = attempt(lambda: ureg.Quantity(1, ureg.UnitsContainer({name: 1})).to(ureg.UnitsContainer({u: 1})))
+    if s == "err":
+        raise Violation(f"named_prefixed_unit_inconsistent:{name}", f"Q(1,{name}).to({u}): {type(q).__name__}: {q}")
+    if abs(float(q.magnitude) - float(want)) > 1e-12 * float(want):
+        raise Violation(f"named_prefixed_unit_inconsistent:{name}", f"the definition of {name!r} gives {q.magnitude!r} {u}; its name reads as {p} + {u} = {want} {u}")
+
+
 def run_table(task, tier, seed, col):
     if task["shard"] == 0:
         consistency()
+        R = env.R()
+        for name in R.units:
+            for p, u in R.readings(name):
+                if p and u in R.units and u != name:
+                    col.case(("named_prefixed", name), True, sample={"name": name, "reads_as": [p, u]}, cls="named_prefixed")
+                    col.run_case(case_named_prefixed, {"name": name, "prefix": p, "unit": u})
+        for r in load_table():
+            if r["kind"] == "prefix" and r["symbol"] and Fraction(eval_value(r["value"])).denominator in (1,) or (r["kind"] == "prefix" and r["symbol"] and str(r["value"]).startswith("1e")):
+                for unit, usym in SI_SYMBOLS.items():
+                    if r["symbol"] + usym == "dB":
+                        continue  # dB is the decibel; a decibyte has no standard symbol
+                    col.case(("psym", r["symbol"], usym), True, cls="prefixed_symbol")
+                    col.run_case(case_prefixed_symbol, {"psym": r["symbol"], "pval": r["value"], "unit": unit, "usym": usym})
     rows = load_table()
     work = [(r, sp, nit) for r in rows for sp in r["spellings"] for nit in ("Fraction", "float")]
     mine = shard(work, task["shard"], task["nshard"])
@@ -222,6 +265,10 @@ def run_task(task, tier, seed, col):
 
 
 def replay(sub, case):
+    if "psym" in case:
+        return case_prefixed_symbol(case)
+    if "prefix" in case and "name" in case:
+        return case_named_prefixed(case)
     # history-sensitive defects (a factor cached under a wrong key) need the table to have been walked first
     from ..core import Violation as _V
     for r in load_table():
